@@ -1,6 +1,6 @@
 """Shared machinery of C14 and C16: harness h_storage_io (real storage devices + real
 linux/platform.c with interposed system calls) versus the Lean model driver `acq_storage`."""
-import os, re, struct
+import atexit, os, re, shutil, struct
 from . import common as C
 
 HARNESS_SRC = [
@@ -56,7 +56,10 @@ def build(ctx):
     if not ok:
         ctx.corr_broken.append({"what": "model driver acq_storage does not build", "log": log[-2000:]})
         return None, None
-    exe, log = C.compile_harness("h_storage_io_%s" % ctx.prop.lower(), HARNESS_SRC, extra_flags=["-DNO_UNIT_TESTS"])
+    # one build directory per run: several checks (C14, C16, tiers, seeds) may run at the same time
+    name = "h_storage_io_%s_%d" % (ctx.prop.lower(), os.getpid())
+    atexit.register(shutil.rmtree, os.path.join(C.BUILD, name), True)
+    exe, log = C.compile_harness(name, HARNESS_SRC, extra_flags=["-DNO_UNIT_TESTS"])
     if not exe:
         ctx.corr_broken.append({"what": "harness h_storage_io does not compile against the repository", "log": log[-3000:]})
         return None, None
